@@ -337,6 +337,7 @@ class Live:
     def connect(self, database, schema):
         """Real connect + model step. Returns (outcome, expectation)."""
         free = self.m.free_cell(database)
+        before = copy.deepcopy(self.m)
         try:
             conn = self.fs.connect(database=database, schema=schema)
             got = ("ok",)
@@ -349,7 +350,10 @@ class Live:
             attached = database.upper() in {d.upper() for d in real_catalog(self.fs)}
         exp = self.m.connect(database, schema, observed_attached=attached)
         if conn is None:
-            self.m.sessions[-1]["alive"] = False
+            # quirk branch: a raising connect leaves no session; the objects the table would have created are taken
+            # back (judge_connect verifies that the real state is indeed unchanged, else the state is not explored further)
+            self.m.cat, self.m.disk, self.m.ever_attached = before.cat, before.disk, before.ever_attached
+            self.m.sessions[-1].update(has_db=False, has_schema=False, alive=False)
         return got, exp
 
     def probes(self):
@@ -478,13 +482,10 @@ def judge_connect(cfg, hist, live, pre_model, pre, post, got, exp, shp, findings
     if got[0] != "ok":
         exc = got[1].split(".")[-1]
         findings.append(("C14.no_raise", f"{shp},exc={exc}", dict(rp_detail, raised=got)))
-        # quirk branch: a raising connect that changed nothing -> go on without that session; the model's objects
-        # for this connect are rolled back to the pre-state
+        # quirk branch: a raising connect that changed nothing -> go on without that session (Live.connect has taken
+        # the model back to the pre-state)
         unchanged = post["cat"] == pre["cat"] and post["files"] == pre["files"] and post["sessions"][:-1] == pre["sessions"]
-        if unchanged:
-            m.cat, m.disk, m.ever_attached = pre_model.cat, pre_model.disk, pre_model.ever_attached
-            m.sessions[-1].update(has_db=False, has_schema=False, alive=False)
-        else:
+        if not unchanged:
             findings.append(("C14.no_raise", f"{shp},exc={exc},state_changed", dict(rp_detail, before=pre["cat"], after=post["cat"])))
             diverged = True
         return diverged
@@ -587,7 +588,7 @@ def explore(item, acc: core.Acc, tier):
         acc.count("transitions")
         exp = info["expected"]
         post = info["post"]
-        acc.obs((cfg, hist, info["outcome"], sorted(map(repr, post["cat"].items())), post["sessions"], post["files"], post["cwd"], r["obs"]))
+        acc.obs((cfg, hist, info["outcome"][:4], sorted(map(repr, post["cat"].items())), post["sessions"], post["files"], post["cwd"], r["obs"]))
         acc.outcome((info["shape"], info["outcome"][0], info["outcome"][1] if info["outcome"][0] != "ok" else None, r["obs"][-1]))
         if exp["created_db"] or exp["created_schema"] or not exp["has_db"] or not exp["has_schema"] or info["outcome"][0] != "ok":
             acc.nontrivial((cfg, info["pre_key"], hist[-1]))
